@@ -488,10 +488,27 @@ type c11Loop struct {
 	flakyN   int64 // sink: every flakyN-th request is rejected (0 = never)
 	sinkReqs int64
 	prefixNS string
+	stalled  map[string]int // per job: source requests that the remote end is holding right now
+	release  chan struct{}  // closed by stopStalling
+	noStall  int32
+	relOnce  sync.Once
+}
+
+// stalledNow says how many source requests of the job the stalling remote end holds right now.
+func (l *c11Loop) stalledNow(job string) int {
+	l.mu.Lock()
+	defer l.mu.Unlock()
+	return l.stalled[job]
+}
+
+// stopStalling lets every held request go and makes the stall endpoints answer normally.
+func (l *c11Loop) stopStalling() {
+	atomic.StoreInt32(&l.noStall, 1)
+	l.relOnce.Do(func() { close(l.release) })
 }
 
 func newC11Loop() *c11Loop {
-	l := &c11Loop{gen: map[string]int{}, nEnt: map[string]int{}}
+	l := &c11Loop{gen: map[string]int{}, nEnt: map[string]int{}, stalled: map[string]int{}, release: make(chan struct{})}
 	l.srv = httptest.NewServer(http.HandlerFunc(l.serve))
 	return l
 }
@@ -542,6 +559,34 @@ func (l *c11Loop) serve(w http.ResponseWriter, req *http.Request) {
 			l.finish(r, 500, 0)
 			http.Error(w, "c11 injected source failure", 500)
 			return
+		}
+		if (mode == "stallh" || mode == "stallb") && atomic.LoadInt32(&l.noStall) == 0 {
+			// a remote end that stalls: before answering at all, or after the headers and the
+			// beginning of the payload. It lets go when the client goes away or the case is over.
+			if mode == "stallb" {
+				w.Header().Set("Content-Type", "application/json")
+				w.WriteHeader(200)
+				_, _ = w.Write([]byte(`[{"id":"@context","namespaces":{"c11h":"http://data.c11/"}},{"id":"c11h:e-0","refs":{},"props":{"c11h:v":0}},`))
+				if f, ok := w.(http.Flusher); ok {
+					f.Flush()
+				}
+			}
+			l.mu.Lock()
+			l.stalled[job]++
+			l.mu.Unlock()
+			gone := false
+			select {
+			case <-l.release:
+			case <-req.Context().Done():
+				gone = true
+			}
+			l.mu.Lock()
+			l.stalled[job]--
+			l.mu.Unlock()
+			if gone || mode == "stallb" {
+				l.finish(r, 499, 0) // client went away / truncated body
+				return
+			}
 		}
 		l.mu.Lock()
 		gen, n := l.gen[job], l.nEnt[job]
@@ -834,6 +879,10 @@ func c11DeathClass(d c11Death, cfg *c11Cfg) string {
 		c11HasFrame(d, "jobs.(*IncrementalPipeline).sync.func"):
 		// parallel workers of the incremental pipeline share one JS runtime when the transform is wrapped
 		return "died-js-parallelism+log-handler-shared-runtime"
+	case cfg != nil && cfg.Transform == "jsNoFunc" && d.Kind == "nil-deref" && c11HasFrame(d, "jobs.(*JavascriptTransform).transformEntities"):
+		return "died-js-transform-code-without-transform_entities"
+	case cfg != nil && (cfg.Transform == "jsNoCode" || cfg.Transform == "jsEmptyCode") && d.Kind == "nil-deref" && c11HasFrame(d, "jobs.(*JavascriptTransform)."):
+		return "died-js-transform-without-code-nil-receiver"
 	case d.Kind == "makeslice" && strings.HasPrefix(d.Frame, "jobs.(*IncrementalPipeline).sync"):
 		return "via-C10-psize"
 	case d.Kind == "dpanic-log" && c11HasFrame(d, "jobs.(*job).handleJobError"):
@@ -1152,6 +1201,110 @@ func c11JudgeStuck(h *c11Hub, viol func(class, msg string, exp, obs any, extra m
 				fmt.Sprintf("KillJob(%s) was issued but the run is still listed by GetRunningJobs and its goroutine is still parked in %s inside %s with nothing left to release it: the run cannot end as killed", r.ID, p2.Run.Funcs[0], p2.WaitIn),
 				"after KillJob the run ends with outcome kill and leaves the running jobs", p2, map[string]any{"run": r, "stack": stack2})
 		}
+	}
+	return n
+}
+
+// ---------------------------------------------------------------- killed run parked in a network read
+
+const c11HTTPSourceRead = "github.com/mimiro-io/datahub/internal/jobs/source.(*HTTPDatasetSource).ReadEntities"
+
+func c11HasVerifFrame(g *c11G) bool {
+	for _, f := range g.Funcs {
+		if strings.Contains(f, "/internal/verif/") {
+			return true
+		}
+	}
+	return strings.Contains(g.CreatedBy, "/internal/verif/") && len(g.Funcs) == 0
+}
+
+// c11ParkedNet judges one dump: the run's goroutine is parked in the HTTP client (waiting for
+// the response headers or reading the body) below HTTPDatasetSource.ReadEntities, and the whole
+// process is at rest: no goroutine of the hub is running or runnable, so nothing is under way
+// that could still wake it (a cancellation that had reached the HTTP transport would show as a
+// runnable transport goroutine or as the run's goroutine itself being runnable).
+func c11ParkedNet(gs map[int64]*c11G, gid int64) *c11Parked {
+	g := gs[gid]
+	if g == nil || len(g.Funcs) == 0 {
+		return nil
+	}
+	if g.State != "select" && g.State != "IO wait" {
+		return nil
+	}
+	inner := g.Funcs[0]
+	if !strings.HasPrefix(inner, "net/http.") && !strings.HasPrefix(inner, "internal/poll.") {
+		return nil
+	}
+	under := false
+	for _, f := range g.Funcs {
+		if f == c11HTTPSourceRead {
+			under = true
+		}
+	}
+	if !under {
+		return nil
+	}
+	for _, o := range gs {
+		if o.ID == gid {
+			continue
+		}
+		if (o.State == "running" || o.State == "runnable") && !c11HasVerifFrame(o) {
+			return nil // something of the hub is still under way
+		}
+	}
+	return &c11Parked{Kind: "http-source-read-not-cancelled", Run: *g, WaitIn: "source.(*HTTPDatasetSource).ReadEntities"}
+}
+
+// c11JudgeNetAfterKill: KillJob has returned (the run's context is cancelled: closing its Done
+// channel readies every goroutine that waits on it before cancel returns), the remote end of the
+// run's HttpDatasetSource is known to hold the request (the harness controls it and does not
+// answer), and yet the run's goroutine is parked in the HTTP client with the rest of the hub at
+// rest, in two dumps: nothing is left that ends this run, it cannot end as killed.
+func c11JudgeNetAfterKill(h *c11Hub, loop *c11Loop, id string, killSeq int64, viol func(class, msg string, exp, obs any, extra map[string]any)) int {
+	n := 0
+	for _, r := range h.rec.snapshotRuns() {
+		if r.SeqReturn != 0 || r.Outcome != "" || r.ID != id || r.SeqBorrow > killSeq {
+			continue
+		}
+		var p *c11Parked
+		stack := ""
+		for try := 0; try < 4 && p == nil; try++ {
+			if loop.stalledNow(id) == 0 {
+				break
+			}
+			d1 := c11DumpAll()
+			p1 := c11ParkedNet(c11ParseGoroutines(d1), r.Gid)
+			if p1 == nil {
+				time.Sleep(100 * time.Millisecond)
+				continue
+			}
+			time.Sleep(150 * time.Millisecond)
+			d2 := c11DumpAll()
+			p2 := c11ParkedNet(c11ParseGoroutines(d2), r.Gid)
+			if p2 != nil && loop.stalledNow(id) > 0 && strings.Join(p2.Run.Funcs, ">") == strings.Join(p1.Run.Funcs, ">") {
+				p, stack = p2, c11StackOf(d2, r.Gid)
+			}
+		}
+		if p == nil {
+			continue
+		}
+		listed := false
+		for _, j := range h.sched.GetRunningJobs() {
+			if j.JobID == id {
+				listed = true
+			}
+		}
+		h.rec.mu.Lock()
+		_, stillOpen := h.rec.open[r.Gid]
+		h.rec.mu.Unlock()
+		if !stillOpen {
+			continue
+		}
+		n++
+		viol("kill-ignored:"+p.Kind,
+			fmt.Sprintf("KillJob(%s) has returned but the run still holds its slot (listed by GetRunningJobs: %v): its goroutine is parked in %s (state %q) below %s while the remote end stalls, and no goroutine of the hub is running or runnable - the kill never reached the HTTP request, the run cannot end as killed",
+				id, listed, p.Run.Funcs[0], p.Run.State, p.WaitIn),
+			"after KillJob the run ends (kill / failure) with a stored result and gives its slot back", p, map[string]any{"run": r, "stack": stack, "listed_by_GetRunningJobs": listed})
 	}
 	return n
 }
